@@ -17,6 +17,7 @@ def run(rep):
     rep.guard(d2, rep, w)
     rep.guard(d3, rep, w)
     rep.guard(d4, rep, w)
+    rep.guard(d5, rep, w)
     import c11
     rep.guard(c11.i4, rep, w)    # the text of a number is an interned string: a look-up that takes equal hash for equal text hands `String.from(b)` the text of another number
     import c05
@@ -304,3 +305,37 @@ def d4(rep, w):
                          for _, t in g.calls() if ('fmt::rt::Argument' in (callee_name(t) or '') or (callee_name(t) or '').endswith('::to_string'))
                          and {g.crate.tstr(a).lstrip('&') for a in (t['f'].get('ra') or t['f'].get('a') or [])} & NUMERIC})
         r.check(not others, '%s: no number is formatted except through Display for Value' % nm.rsplit('::', 1)[-1], '%s also formats a number through %s' % (nm, others), g.loc())
+
+
+def d5(rep, w):
+    """the text the parser reads a literal's value from is the literal: the token Scanner::number hands out is make_token's result as it is -
+    the lexeme between the cursor fields - not an edited copy (a fraction cut to "enough" digits lands on the wrong neighbouring double when the
+    deciding digit lies beyond the cut)."""
+    r = rep.rule('D5', 'the number lexer returns the token make_token built from the whole lexeme, unedited', floor=1)
+    f = w.require_fn(SC + 'number', 'C19')
+    org = origins(f)
+    mk = [bi for bi, t in f.calls() if (callee_name(t) or '').endswith('::make_token')]
+    if not mk:
+        raise Broken('C19', 'anchor', 'Scanner::number: make_token call not found')
+    edits = []
+    for bi, t in f.calls():
+        if bi in mk or not t['args']:
+            continue
+        n_ = strip_generics(callee_name(t) or '')
+        pl = op_place(t['args'][0])
+        if pl is None:
+            continue
+        from_token = any(q[0][0] == 'call' and q[0][1] in mk for q in org.get(pl['l'], ()))
+        takes_mut = f.crate.tstr(f.local_ty(pl['l'])).startswith('&mut') if not pl.get('p') else False
+        if from_token and (takes_mut or n_.rsplit('::', 1)[-1] in ('truncate', 'pop', 'clear', 'remove', 'retain', 'drain', 'split_off', 'replace_range', 'insert', 'insert_str', 'push', 'push_str')):
+            edits.append(n_.rsplit('::', 1)[-1])
+    stores = []
+    for bi in f.normal_blocks():
+        for s_ in f.blocks[bi]['s']:
+            d = s_.get('d') or {}
+            if d.get('p') and any(q[0][0] == 'call' and q[0][1] in mk for q in org.get(d['l'], ())) and any(isinstance(e, dict) and e.get('n') == 'source' for e in d['p']):
+                stores.append('source = ..')
+    ret_ok = all(q[0][0] == 'call' and q[0][1] in mk for q in org.get(0, ())) and bool(org.get(0))
+    r.check(ret_ok and not edits and not stores, 'Scanner::number: the token returned is make_token\'s, unedited',
+            'Scanner::number edits the token after make_token (%s) or returns another one: the text the parser converts is not the lexeme that was scanned'
+            % (sorted(set(edits + stores)) or 'result does not come from make_token'), f.loc())
